@@ -474,7 +474,14 @@ func (e *Exec) applyContract(s *State, site ssa.Instruction, calleeName string, 
 		s.heaps[k] = nh
 		var inf []string
 		for _, f := range qlocs {
-			inf = append(inf, fmt.Sprintf("(and (= o %s) (<= %s x) (< x %s))", f.obj, f.lo, f.hi))
+			// the region lies inside an object that carries the tag of the slice's element
+			// type (a nil slice has no cells): objects with another tag are untouched,
+			// which the solvers see without any reasoning about the bounds
+			tagc := ""
+			if f.typ != nil && f.elems {
+				tagc = fmt.Sprintf(" (= (tag o) %d)", e.p.tagOf(f.typ))
+			}
+			inf = append(inf, fmt.Sprintf("(and (= o %s)%s (<= %s x) (< x %s))", f.obj, tagc, f.lo, f.hi))
 		}
 		c.emit(fmt.Sprintf("(assert (forall ((o Int) (x Int)) (! (=> (not (or %s false)) (= (select (select %s o) x) (select (select %s o) x))) :pattern ((select (select %s o) x)))))",
 			strings.Join(inf, " "), nh, hp, nh), true)
@@ -498,7 +505,34 @@ func (e *Exec) assumeEnsures(s, pre *State, sp *FuncSpec, scopeFn *ssa.Function,
 	bindResults(pv, results, rv)
 	post := &Env{x: e, fn: scopeFn, cur: s, old: pre, vars: pv, oldEnv: oldEnv, hyp: true}
 	for _, en := range sp.Ensures {
-		c.assume(s.pc, post.evalBool(en.Expr))
+		// a clause with recorded findings does not hold on the recorded inputs:
+		// callers may rely on it only outside them
+		guard := "true"
+		if scopeFn != nil && !sp.Trusted {
+			base := shortPkg(sp.Pkg) + sp.Ref + ":ensures:" + en.Label
+			for _, f := range e.p.findings {
+				if f.Obligation != base {
+					continue
+				}
+				if f.When == "" {
+					guard = "false"
+					break
+				}
+				x, err := parseSpecExpr(f.When)
+				if err != nil {
+					fail("known finding on %s: %v", base, err)
+				}
+				guard = c.and(guard, c.not(oldEnv.evalBool(x)))
+			}
+		}
+		if guard == "false" {
+			continue
+		}
+		cl := post.evalBool(en.Expr)
+		if guard != "true" {
+			cl = c.B("(=> %s %s)", guard, cl)
+		}
+		c.assume(s.pc, cl)
 	}
 }
 
@@ -540,7 +574,7 @@ func (env *Env) modLoc(m *ModLoc) frameLoc {
 		if m.Kind == "backing" {
 			n = v.t[3]
 		}
-		return frameLoc{obj: v.t[0], lo: v.t[1], hi: c.I("(+ %s (* %s %d))", v.t[1], n, cells(st.Elem())), typ: st.Elem()}
+		return frameLoc{obj: v.t[0], lo: v.t[1], hi: c.I("(+ %s (* %s %d))", v.t[1], n, cells(st.Elem())), typ: st.Elem(), elems: true}
 	case "cell":
 		if m.Expr.Op != "sel" {
 			specFail("modifies %s: field selector expected", m.Src)
